@@ -5,6 +5,7 @@ import random
 from .. import astx, refimpl
 from ..astx import C, N, call
 from ..core import CaseTimeout, case_timeout
+from ..embellish import embellish
 from ..gen_expr import Gen
 
 N_CASES = {"quick": 300, "thorough": 300000}
@@ -212,12 +213,51 @@ def judge(ctx, q, stats, info):
         if astx.dump_fields(arg) != snap:
             ctx.violation("remove:editing-the-result-changes-the-argument", f"after editing the returned AST in place the AST that was passed in reads {astx.unparse(arg)[:200]} | in: {witness['query'][:300]}", witness)
         ctx.count("obligation:result-edited-argument-rechecked")
+        # the same query object cleaned again, and a query derived from it the way streams derive (the old query is the new one's
+        # first argument, shared not copied), after the earlier result was edited by its consumer: the answers are the same
+        try:
+            again = remove_empty_metadata(arg)
+            if not astx.struct_eq(again, exp):
+                ctx.violation("remove:second-cleaning-of-the-same-object-differs", f"{astx.first_diff(again, exp)} | in: {witness['query'][:300]} | second: {astx.unparse(again)[:300]}", witness)
+                return
+            derived = call("Select", arg, astx.parse_expr("lambda z_: z_"))
+            d_exp = call("Select", astx.clone(exp), astx.parse_expr("lambda z_: z_"))
+            d_got = remove_empty_metadata(derived)
+            if not astx.struct_eq(d_got, d_exp):
+                ctx.violation("remove:query-derived-from-a-cleaned-one-differs", f"{astx.first_diff(d_got, d_exp)} | in: Select(<{witness['query'][:300]}>, lambda z_: z_) | out: {astx.unparse(d_got)[:300]}", witness)
+                return
+            x_ast, x_md = extract_metadata(arg)  # (works in place on arg, which is ours)
+            x_exp, x_exp_md = refimpl.extract(q)
+            if not astx.struct_eq(x_ast, x_exp) or sorted(map(canon, x_md)) != sorted(map(canon, x_exp_md)):
+                ctx.violation("extract:after-cleaning-the-same-object-differs", f"got {x_md!r:.200} expected {x_exp_md!r:.200} | in: {witness['query'][:300]}", witness)
+                return
+            ctx.count("obligation:history-on-one-object-checked")
+        except Exception as e:
+            ctx.violation(f"remove:exc-on-repeat:{type(e).__name__}", f"{type(e).__name__}: {str(e)[:200]} | in: {witness['query'][:300]}", witness)
+            return
     ctx.count("obligation:remove-checked")
     if len(ctx.samples) < 4 and nt and ctx.rnd.random() < 0.03:
         ctx.sample({"in": witness["query"], "extracted": astx.unparse(got_ast) if got_ast is not None else None, "cleaned": astx.unparse(got)})
 
 
+_tok = [900000]
+
+
+def _md_snippet(rnd):
+    _tok[0] += 1
+    src = rnd.choice(["cfg.jets", "Select(cfg.jets, lambda j: j.pt)", "cfg.trks.Where(lambda t: t.ok)", "MetaData(cfg.jets, {})"])
+    d = "{}" if rnd.random() < 0.3 else "{'t': %d}" % _tok[0]
+    return astx.parse_expr(f"MetaData({src}, {d})")
+
+
+SNIPPETS = [_md_snippet]
+
+
 DIRECTED = [
+    "Select(EventDataset(), lambda e, *, cut=MetaData(cuts.pt, {'t': 71}): e.jets.Where(lambda j: j.pt > cut))",
+    "Select(EventDataset(), lambda e, c=MetaData(a, {}), *r, k=MetaData(MetaData(b, {'t': 72}), {}), **kw: f'{MetaData(e.x, {'t': 73})!r:>{MetaData(e.w, {})}}')",
+    "[MetaData(j, {'t': 74}) for j in MetaData(e.jets, {}) if MetaData(j.ok, {'t': 75})]",
+    "{**MetaData(a, {'t': 76}), 'k': (w := MetaData(b, {}))}[MetaData(c, {'t': 77}):MetaData(d, {})]",
     "Select(EventDataset(), lambda e: calib(e.x, **MetaData(e.defaults, {'t': 1}), **e.overrides))",
     "f(MetaData(a, {}), **b, **MetaData(c, {'t': 2}), **d)",
     "Select(MetaData(EventDataset(), {'t': 5}), lambda e: g(*e.a, *MetaData(e.b, {}), k=1, **e.c, **e.d))",
@@ -257,6 +297,13 @@ def shard_main(ctx):
         ins = Inserter(rnd, rnd.choice([0.0, 0.2, 0.4, 0.7]))
         q2 = ins.go(q)
         st = {"n": ins.n, "empty": ins.empty, "in_lambda": ins.in_lambda, "stacked": ins.stacked, "nondict": ins.nondict}
+        if rnd.random() < 0.3:
+            # rare but legitimate python syntax with wrappers in the odd places: defaults, keyword-only defaults, ** mappings, f-strings,
+            # comprehension parts, slices, walrus values (vmon/embellish.py)
+            q2, feats = embellish(rnd, q2, SNIPPETS)
+            for f in feats:
+                ctx.count("feature:syntax:" + f)
+            st = dict(st, n=st["n"] + 1, syntax=sorted(feats))
         ctx.count("wrappers", ins.n)
         ctx.count("wrappers-empty", ins.empty)
         ctx.count("wrappers-in-lambda", ins.in_lambda)
